@@ -8,9 +8,10 @@ import Driver.Table
 import Driver.WFile
 import Driver.Policy
 import Driver.Skiplist
+import Driver.LruCache
 open Lcdb Drv
 
-def handlers : List (List String → String) := [handleCore, handleFormats, handleFilter, handleBlock, handleSnappy, handleIterStack, handleTable, handleWFile, handlePolicy, handleSkiplist]
+def handlers : List (List String → String) := [handleCore, handleFormats, handleFilter, handleBlock, handleSnappy, handleIterStack, handleTable, handleWFile, handlePolicy, handleSkiplist, handleLruCache]
 
 def handle (line : String) : String :=
   let f := line.trimAscii.toString.splitOn " "
